@@ -447,6 +447,7 @@ U_C01_Overlap(zz) == {DeclP([C0 |-> Class(DefaultOpts, <<U1("a"), DataF("b", SzC
                                                     MvField(DataF("c", SzField("a")), [kind |-> "at", arg |-> g, ref |-> "innermost-pkt"]),
                                                     MvField(U1("d"), [kind |-> "at", arg |-> SzConst(h), ref |-> "begins"])>>)],
                         {0, 1, 2, 46}, 5, {0}) : g \in {SzConst(0), SzConst(2), SzConst(3), SzConst(4)}, h \in {1, 3, 5}}
+\* placed high first, then back at the start, then fields that follow each other into the first one
 U_C01_Overlap3(zz) == {DeclP([C0 |-> Class(DefaultOpts, <<MvField(DataF("f", SzConst(2)), [kind |-> "at", arg |-> SzConst(hp), ref |-> "innermost-pkt"]),
                                                          MvField(U1("k"), [kind |-> "at", arg |-> SzConst(0), ref |-> "innermost-pkt"]),
                                                          DataF("l", SzMarker(<<0>>, FALSE, TRUE)), U1("z")>>)],
@@ -482,7 +483,7 @@ U_C01_Root(zz) == {DeclP([C0 |-> Class(DefaultOpts, <<U1("w"), RefF("s", "C1"), 
 \* on a buffer of its own), flat, one level down, and after bytes have already been written
 ReentHdr == Class(DefaultOpts, <<U1("n"), DataF("v", SzField("n"))>>)
 U_C01_Reent(zz) ==
-    {DeclP([C0 |-> Class(DefaultOpts, <<U1("w"), RefF("h", "C1"), x, U1("z")>>), C1 |-> ReentHdr], {0, 1, 2}, 7, {0, 1}) :
+    {DeclP([C0 |-> Class(DefaultOpts, <<U1("w"), RefF("h", "C1"), x, U1("z")>>), C1 |-> ReentHdr], {0, 1, 2}, 6, {0, 1}) :
         x \in {MvField(DataF("d", SzConst(1)), [kind |-> "at", arg |-> Lam(EBin("add", EPackLen(EF("h")), EC(2))), ref |-> "innermost-pkt"]),
                MvField(U1("d"), [kind |-> "shift", arg |-> Lam(EBin("sub", EPackLen(EF("h")), EC(1))), ref |-> "current-offset"]),
                MvField(U1("d"), [kind |-> "aligned", arg |-> Lam(EBin("add", EPackLen(EF("h")), EC(1))), ref |-> "innermost-pkt"]),
@@ -491,11 +492,11 @@ U_C01_Reent(zz) ==
     \cup {DeclP([C0 |-> Class(DefaultOpts, <<U1("w"), RefF("s", "C2"), U1("z")>>),
                  C2 |-> Class(DefaultOpts, <<U1("t"), RefF("h", "C1"),
                                              MvField(U1("d"), [kind |-> "at", arg |-> Lam(EBin("add", EPackLen(EF("h")), EC(k))), ref |-> "innermost-pkt"])>>),
-                 C1 |-> ReentHdr], {0, 1, 2}, 7, {0}) : k \in {1, 2}}
-U_C01(zz) == U_C01_Reent(0) \cup U_C08_Shared(0) \cup U_C08_Sel(0) \cup U_C01_Root(0) \cup U_C01_OverlapEm(0) \cup U_C01_Before(0) \cup U_C10_Back(0) \cup U_C01_Data(0) \cup U_C01_Move(0) \cup U_C01_Ctl(0) \cup U_C01_Overlap(0) \cup U_C07_24(0) \cup U_C07_Ctx(0)
+                 C1 |-> ReentHdr], {0, 1, 2}, 6, {0}) : k \in {1, 2}}
+U_C01(zz) == U_C01_Overlap3(0) \cup U_C01_Reent(0) \cup U_C08_Shared(0) \cup U_C08_Sel(0) \cup U_C01_Root(0) \cup U_C01_OverlapEm(0) \cup U_C01_Before(0) \cup U_C10_Back(0) \cup U_C01_Data(0) \cup U_C01_Move(0) \cup U_C01_Ctl(0) \cup U_C01_Overlap(0) \cup U_C07_24(0) \cup U_C07_Ctx(0)
 
 \* the every-change subset: every family is represented, the cross products are thinned
-U_C01_Q(zz) == U_C01_Reent(0) \cup U_C08_Shared(0) \cup U_C08_Sel(0) \cup U_C01_Root(0) \cup U_C01_OverlapEm(0) \cup U_C01_Data(0) \cup U_C01_Overlap(0) \cup U_C07_24(0) \cup U_C01_Before(0) \cup U_C10_Back(0)
+U_C01_Q(zz) == U_C01_Overlap3(0) \cup U_C01_Reent(0) \cup U_C08_Shared(0) \cup U_C08_Sel(0) \cup U_C01_Root(0) \cup U_C01_OverlapEm(0) \cup U_C01_Data(0) \cup U_C01_Overlap(0) \cup U_C07_24(0) \cup U_C01_Before(0) \cup U_C10_Back(0)
            \cup {[d EXCEPT !.alpha = {0, 1, 46}] : d \in U_C10_Class(0) \cup U_C10_Elem(0)}
            \cup {[d EXCEPT !.alpha = {0, 2, 46}, !.starts = {0}] : d \in U_C10_Flat(0)}
            \cup U_C08_Until(0) \cup U_C08_Nest(0)
@@ -581,7 +582,7 @@ PickU(n) ==
       [] n = "U_C01_Q" -> U_C01_Q(0)
       [] n = "U_C14_End" -> U_C14_End(0)
       [] n = "U_Long" -> U_Long(0)
-      [] n = "U_LongC01" -> U_LongSeq(0) \cup U_LongCollide(0)
+      [] n = "U_LongC01" -> U_LongSeq(0)
       [] n = "U_LongC06" -> U_LongRegex(0) \cup U_LongMarker(0)
       [] n = "U_LongC12" -> U_LongCollide(0) \cup U_LongAligned(0)
       [] n = "U_LongSeq" -> U_LongSeq(0)
